@@ -10,9 +10,11 @@ nodeSize / contractPairCost / neighborhoodSize / neighborhoodCompressCost` (hype
 the loop of `compressed_contract_stats` (core.py:1079-1123) for both values of `compress_late`.
 
 What is proved here
-* `compress_preserves_product`: merging a group of parallel edges whose product does not exceed
-  the cap leaves the size of every node (and every pair cost) unchanged — the merged edge gets
-  the product.
+* `prod_merge`, `compress_preserves_product`, `compress_groups_nodeSize`, `compress_nodeSize`: merging
+  groups of parallel edges whose products do not exceed the cap leaves the size of every node
+  unchanged — the merged edge gets the product — for one merge, for the loop over disjoint
+  groups, and for a whole `compress(chi, edges)` call on consistent dictionaries (the grouping by
+  `frozenset(edges[e])` is proved to produce disjoint groups of parallel edges: `groupBy_inv`).
 * `capped_le_uncapped_partial`: for caps `c1 ≤ c2` the two runs of `compressed_contract_stats` go
   through the same hypergraph shapes with pointwise smaller sizes; hence `write` and `max_size`
   of the smaller cap never exceed those of the larger one. (`peak_size` is not proved: it needs
@@ -508,5 +510,240 @@ theorem compress_groups_nodeSize (chi : Nat) (gs : List (List Nat × List Ix)) (
           rw [hm, HG.size_set, if_neg hne, HG.removeEdges_size]
         rw [this]; exact hbig g (List.mem_cons_of_mem _ hg)
       rw [ih _ _ loc' hbig', hstep]
+
+end Cotengra.C20
+
+namespace Cotengra.C20
+open Cotengra Cotengra.Net Cotengra.Legs Cotengra.HGu
+
+/-! ## the grouping of `compress` -/
+
+theorem mem_insertSorted (x y : Nat) (l : List Nat) : y ∈ insertSorted x l ↔ (y = x ∨ y ∈ l) := by
+  induction l with
+  | nil => simp [insertSorted]
+  | cons a t ih =>
+    unfold insertSorted
+    split
+    · simp
+    · split
+      · rename_i h; subst h; simp
+      · simp only [List.mem_cons, ih]
+        constructor
+        · rintro (h | h | h)
+          · exact Or.inr (Or.inl h)
+          · exact Or.inl h
+          · exact Or.inr (Or.inr h)
+        · rintro (h | h | h)
+          · exact Or.inr (Or.inl h)
+          · exact Or.inl h
+          · exact Or.inr (Or.inr h)
+
+theorem mem_toSet (l : List Nat) (y : Nat) : y ∈ toSet l ↔ y ∈ l := by
+  unfold toSet
+  have : ∀ acc : List Nat, y ∈ l.foldl (fun acc x => insertSorted x acc) acc ↔ (y ∈ l ∨ y ∈ acc) := by
+    induction l with
+    | nil => intro acc; simp
+    | cons a t ih =>
+      intro acc
+      simp only [List.foldl_cons, ih, mem_insertSorted, List.mem_cons]
+      constructor
+      · rintro (h | h | h)
+        · exact Or.inl (Or.inr h)
+        · exact Or.inl (Or.inl h)
+        · exact Or.inr h
+      · rintro ((h | h) | h)
+        · exact Or.inr (Or.inl h)
+        · exact Or.inl h
+        · exact Or.inr (Or.inr h)
+  simpa using this []
+
+/-- one iteration of the grouping loop (hypergraph.py:289-293) -/
+def gstep (h : HG) (acc : List (List Nat × List Ix)) (e : Ix) : List (List Nat × List Ix) :=
+  if h.output.contains e then acc else
+  let key := toSet (h.getEdge e)
+  if acc.any (fun g => g.1 == key) then
+    acc.map (fun g => if g.1 == key then (g.1, g.2 ++ [e]) else g)
+  else acc ++ [(key, [e])]
+
+theorem groupByIncidence_eq (h : HG) (es : List Ix) : h.groupByIncidence es = es.foldl (gstep h) [] := rfl
+
+structure GInv (h : HG) (acc : List (List Nat × List Ix)) (P : List Ix) : Prop where
+  key : ∀ g ∈ acc, ∀ x ∈ g.2, toSet (h.getEdge x) = g.1 ∧ x ∈ P
+  disj : (acc.flatMap (·.2)).Nodup
+  keys : (acc.map (·.1)).Nodup
+
+theorem map_append_mem (acc : List (List Nat × List Ix)) (key : List Nat) (e : Ix) (x : Ix) :
+    x ∈ (acc.map (fun g => if g.1 == key then (g.1, g.2 ++ [e]) else g)).flatMap (·.2) →
+      x = e ∨ x ∈ acc.flatMap (·.2) := by
+  intro hx
+  obtain ⟨g', hg', hxg⟩ := List.mem_flatMap.1 hx
+  obtain ⟨g, hg, rfl⟩ := List.mem_map.1 hg'
+  by_cases hk : (g.1 == key) = true
+  · rw [if_pos hk] at hxg
+    rcases List.mem_append.1 hxg with h1 | h1
+    · exact Or.inr (List.mem_flatMap.2 ⟨g, hg, h1⟩)
+    · simp only [List.mem_singleton] at h1; exact Or.inl h1
+  · rw [if_neg hk] at hxg
+    exact Or.inr (List.mem_flatMap.2 ⟨g, hg, hxg⟩)
+
+theorem map_append_nodup (acc : List (List Nat × List Ix)) (key : List Nat) (e : Ix)
+    (hd : (acc.flatMap (·.2)).Nodup) (hk : (acc.map (·.1)).Nodup) (he : e ∉ acc.flatMap (·.2)) :
+    ((acc.map (fun g => if g.1 == key then (g.1, g.2 ++ [e]) else g)).flatMap (·.2)).Nodup := by
+  induction acc with
+  | nil => simp
+  | cons g t ih =>
+    simp only [List.flatMap_cons] at hd he
+    have hdg := (List.nodup_append.1 hd)
+    have hkt := List.nodup_cons.1 hk
+    have het : e ∉ t.flatMap (·.2) := fun hm => he (List.mem_append_right _ hm)
+    have heg : e ∉ g.2 := fun hm => he (List.mem_append_left _ hm)
+    rw [List.map_cons, List.flatMap_cons]
+    by_cases hkey : (g.1 == key) = true
+    · rw [if_pos hkey]
+      -- no other group has this key: the tail is unchanged
+      have htail : t.map (fun g => if g.1 == key then (g.1, g.2 ++ [e]) else g) = t := by
+        have : ∀ g' ∈ t, (fun g : List Nat × List Ix => if g.1 == key then (g.1, g.2 ++ [e]) else g) g' = id g' := by
+          intro g' hg'
+          have hne : ¬ (g'.1 == key) = true := by
+            intro h'
+            have e1 : g'.1 = key := by simpa using h'
+            have e2 : g.1 = key := by simpa using hkey
+            exact hkt.1 (List.mem_map.2 ⟨g', hg', by show g'.1 = g.1; rw [e1, e2]⟩)
+          simp [hne]
+        rw [List.map_congr_left this, List.map_id]
+      rw [htail]
+      apply List.nodup_append.2
+      refine ⟨?_, hdg.2.1, ?_⟩
+      · exact List.nodup_append.2 ⟨hdg.1, by simp, fun a ha b hb e' => by
+          simp only [List.mem_singleton] at hb; subst hb; subst e'; exact heg ha⟩
+      · intro a ha b hb e'
+        subst e'
+        rcases List.mem_append.1 ha with h1 | h1
+        · exact hdg.2.2 a h1 a hb rfl
+        · simp only [List.mem_singleton] at h1; subst h1; exact het hb
+    · rw [if_neg hkey]
+      apply List.nodup_append.2
+      refine ⟨hdg.1, ih hdg.2.1 hkt.2 het, ?_⟩
+      intro a ha b hb e'
+      subst e'
+      rcases map_append_mem t key e a hb with h1 | h1
+      · subst h1; exact heg ha
+      · exact hdg.2.2 a ha a h1 rfl
+
+theorem gstep_inv (h : HG) (acc : List (List Nat × List Ix)) (P : List Ix) (e : Ix) (inv : GInv h acc P)
+    (he : e ∉ P) : GInv h (gstep h acc e) (e :: P) := by
+  have hmono : ∀ g ∈ acc, ∀ x ∈ g.2, toSet (h.getEdge x) = g.1 ∧ x ∈ e :: P :=
+    fun g hg x hx => ⟨(inv.key g hg x hx).1, List.mem_cons_of_mem _ (inv.key g hg x hx).2⟩
+  have heacc : e ∉ acc.flatMap (·.2) := by
+    intro hm
+    obtain ⟨g, hg, hx⟩ := List.mem_flatMap.1 hm
+    exact he (inv.key g hg e hx).2
+  unfold gstep
+  split
+  · exact ⟨hmono, inv.disj, inv.keys⟩
+  · simp only
+    split
+    · refine ⟨?_, map_append_nodup acc _ e inv.disj inv.keys heacc, ?_⟩
+      · intro g' hg' x hx
+        obtain ⟨g, hg, rfl⟩ := List.mem_map.1 hg'
+        by_cases hk : (g.1 == toSet (h.getEdge e)) = true
+        · rw [if_pos hk] at hx ⊢
+          rcases List.mem_append.1 hx with h1 | h1
+          · exact hmono g hg x h1
+          · simp only [List.mem_singleton] at h1
+            subst h1
+            exact ⟨by simpa using (by simpa using hk : g.1 = toSet (h.getEdge x)).symm, List.mem_cons_self⟩
+        · rw [if_neg hk] at hx ⊢
+          exact hmono g hg x hx
+      · have : (acc.map (fun g => if g.1 == toSet (h.getEdge e) then (g.1, g.2 ++ [e]) else g)).map (·.1) =
+            acc.map (·.1) := by
+          rw [List.map_map]
+          apply List.map_congr_left
+          intro g _
+          simp only [Function.comp]
+          split <;> rfl
+        rw [this]; exact inv.keys
+    · rename_i hany
+      refine ⟨?_, ?_, ?_⟩
+      · intro g hg x hx
+        rcases List.mem_append.1 hg with h1 | h1
+        · exact hmono g h1 x hx
+        · simp only [List.mem_singleton] at h1
+          subst h1
+          simp only [List.mem_singleton] at hx
+          subst hx
+          exact ⟨rfl, List.mem_cons_self⟩
+      · rw [List.flatMap_append]
+        apply List.nodup_append.2
+        refine ⟨inv.disj, by simp, ?_⟩
+        intro a ha b hb e'
+        simp at hb
+        subst hb; subst e'
+        exact heacc ha
+      · rw [List.map_append]
+        apply List.nodup_append.2
+        refine ⟨inv.keys, by simp, ?_⟩
+        intro a ha b hb e'
+        simp at hb
+        subst hb; subst e'
+        apply hany
+        obtain ⟨g, hg, hge⟩ := List.mem_map.1 ha
+        exact List.any_eq_true.2 ⟨g, hg, by simpa using hge⟩
+
+theorem groupBy_inv (h : HG) (es : List Ix) (hnd : es.Nodup) :
+    (∀ g ∈ h.groupByIncidence es, ∀ x ∈ g.2, toSet (h.getEdge x) = g.1) ∧
+    ((h.groupByIncidence es).flatMap (·.2)).Nodup := by
+  rw [groupByIncidence_eq]
+  have : ∀ (es : List Ix) (acc : List (List Nat × List Ix)) (P : List Ix), es.Nodup → (∀ x ∈ es, x ∉ P) →
+      GInv h acc P → ∃ P', GInv h (es.foldl (gstep h) acc) P' := by
+    intro es
+    induction es with
+    | nil => intro acc P _ _ inv; exact ⟨P, inv⟩
+    | cons e t ih =>
+      intro acc P hnd hP inv
+      have hnd' := List.nodup_cons.1 hnd
+      simp only [List.foldl_cons]
+      apply ih (gstep h acc e) (e :: P) hnd'.2
+      · intro x hx hm
+        rcases List.mem_cons.1 hm with e' | e'
+        · subst e'; exact hnd'.1 hx
+        · exact hP x (List.mem_cons_of_mem _ hx) e'
+      · exact gstep_inv h acc P e inv (hP e List.mem_cons_self)
+  have inv0 : GInv h [] [] := ⟨(fun _ hg => by cases hg), List.nodup_nil, List.nodup_nil⟩
+  obtain ⟨P', inv⟩ := this es [] [] hnd (fun _ _ hm => by cases hm) inv0
+  exact ⟨fun g hg x hx => (inv.key g hg x hx).1, inv.disj⟩
+
+/-- **compress_nodeSize** (the full `compress_preserves_product` for sizes). On a consistent
+    hypergraph, `compress(chi, edges)` with `chi` at least the product of every group of parallel
+    edges it finds leaves `node_size(k)` unchanged for every node `k`. -/
+theorem compress_nodeSize (h : HG) (hc : HG.Cons h) (chi : Nat) (es : List Ix)
+    (hbig : ∀ g ∈ h.groupByIncidence (dedup es), h.edgesSize g.2 ≤ chi) (k : Nat) :
+    (h.compress chi es).nodeSize k = h.nodeSize k := by
+  rw [HG.compress_eq]
+  obtain ⟨hkey, hdis⟩ := groupBy_inv h (dedup es) (HG.nodup_dedup es)
+  cases hN : AL.get? h.nodes k with
+  | none =>
+    -- not a node: both sides are the empty product
+    have : ∀ (gs : List (List Nat × List Ix)) (h : HG), AL.get? h.nodes k = none →
+        AL.get? (gs.foldl (HG.mergeGroup chi) h).nodes k = none := by
+      intro gs
+      induction gs with
+      | nil => intro h hh; exact hh
+      | cons g t ih => intro h hh; simp only [List.foldl_cons]; exact ih _ (mergeGroup_none chi h g k hh)
+    unfold HG.nodeSize HG.getNode
+    rw [this _ h hN, hN]
+    rfl
+  | some inds =>
+    apply compress_groups_nodeSize chi _ h k inds _ hbig
+    refine ⟨hN, hc.nd k inds hN, ?_, ?_, hdis⟩
+    · intro g _ e _
+      rw [hc.mem e k]
+      constructor
+      · rintro ⟨inds', h1, h2⟩; rw [hN] at h1; injection h1 with h1; subst h1; exact h2
+      · intro h2; exact ⟨inds, hN, h2⟩
+    · intro g hg e he e' he'
+      have h1 := hkey g hg e he
+      have h2 := hkey g hg e' he'
+      rw [← mem_toSet (h.getEdge e) k, ← mem_toSet (h.getEdge e') k, h1, h2]
 
 end Cotengra.C20
